@@ -17,6 +17,8 @@ for pid in sys.argv[2:]:
         if m['property'] == pid:
             earlier.append('- %s: %s' % (m['name'], m['summary'][:260]))
     t += ("\n\nIMPORTANT - this is round %s. Earlier contributors already delivered the following changes for this property; do NOT repeat them or close variants of them (same site + same idea). Look for different mechanisms, different code sites (also in components/ and in less central files), different triggering conditions; at least one of your changes should depend on timing / goroutine interleaving or on a failure or kill at a particular point rather than on the shape of the input alone:\n" % r) + "\n".join(earlier)
+    if int(r) >= 6:
+        t += "\n\nHints for finding NEW ground (earlier rounds have covered the obvious sites): (a) public API variants that are rarely used (OutPort.To, InPort.Disconnect, FromInt/FromFloat, SetSink, AddProcs, NewWorkflowCustomLogFile, RunToRegex/RunToProcs, Process.SetOutFunc, CustomExecute helpers such as FileIP.Open/OpenTemp/Write/Param/Size), (b) the interplay of two features (streaming + sub-streams, tagging components + RunTo, Go functions + extra files, several workflows in one program, re-runs + tags), (c) behaviour that only differs under a particular timing or after a failure/kill at a particular point, (d) the bundled components and cmd/scipipe where the property touches them."
     t += "\n\nDo NOT use `git stash` (worktrees share the stash with other contributors); use only `git diff`, `git apply` and `git checkout -- .` inside your worktree."
     open('/tmp/prompt%s-%s.txt' % (r, pid), 'w').write(t)
     print(wt)
